@@ -88,6 +88,32 @@ static vm_report last_vm;
         ok_;                                                                                                       \
     })
 
+/* the same with the k-th allocation of the call failing */
+static size_t g_fail_k = 0;
+#define LIBCALL_FAILK(api, what, k, stmt)                                                                          \
+    ({                                                                                                             \
+        int ok_ = 0;                                                                                               \
+        vm_policy pol_;                                                                                            \
+        memset(&pol_, 0, sizeof pol_);                                                                             \
+        pol_.fill = 0xA7;                                                                                          \
+        pol_.fail_k1 = (k);                                                                                        \
+        g_fail_k = (k);                                                                                            \
+        cur_api = (api);                                                                                           \
+        vm_begin_case(&pol_);                                                                                      \
+        if (SB_ENTER()) {                                                                                          \
+            stmt;                                                                                                  \
+            SB_LEAVE();                                                                                            \
+            ok_ = 1;                                                                                               \
+        }                                                                                                          \
+        vm_end_case(&last_vm);                                                                                     \
+        if (!ok_) {                                                                                                \
+            report_fault((api), (what));                                                                           \
+        }                                                                                                          \
+        g_fail_k = 0;                                                                                              \
+        vh_count("calls", 1);                                                                                      \
+        ok_;                                                                                                       \
+    })
+
 /* input placement: pass 0 puts every typed input flush against the guard page (an over-read faults), which ties the
  * start address's alignment to the length; the further passes move the start back by g_in_shift elements so that
  * every length also meets the other alignment classes (mod 8 for 32-bit, mod 16/32 for 64-bit elements) */
@@ -157,8 +183,21 @@ static size_t pick_indices(size_t n, size_t *idx, size_t cap) {
 }
 
 /* capacity sweep helper: list of capacities */
+/* capacities larger than the data are meaningful only where the encoding itself carries its element count (the
+ * argument is then a capacity: the caller's buffer size); where the argument IS the count (delta, 128-block packing,
+ * headerless run-length, the adaptive TAGGED/DELTA forms) a larger value is not a legal call */
+static int g_caps_big = 0;
 static size_t pick_caps(size_t n, size_t *caps) {
     size_t k = 0;
+    static const size_t BIG[] = {255, 256, 257, 300, 512, 65535, 65536, 65537, (size_t)1 << 31, ((size_t)1 << 32) - 1, (size_t)1 << 32, ((size_t)1 << 32) + 1, (size_t)1 << 40};
+    for (size_t i = 0; g_caps_big && i < sizeof BIG / sizeof *BIG; i++) {
+        if (BIG[i] > n) {
+            caps[k++] = BIG[i];
+        }
+    }
+    if (g_caps_big) {
+        caps[k++] = n + 1;
+    }
     if (n <= 400) {
         for (size_t c = 0; c <= n; c++) {
             caps[k++] = c;
@@ -182,23 +221,38 @@ static size_t pick_caps(size_t n, size_t *caps) {
         size_t nc_ = pick_caps((n), caps_);                                                                        \
         for (size_t ci_ = 0; ci_ < nc_; ci_++) {                                                                   \
             size_t c = caps_[ci_];                                                                                 \
-            uint64_t *out = out_buf(c);                                                                            \
+            /* capacities above n (2^8, 2^16, 2^32 neighbourhoods, SIZE_MAX): the buffer holds the n elements */   \
+            size_t room_ = c > (size_t)(n) ? (size_t)(n) : c;                                                      \
+            uint64_t *out = out_buf(room_);                                                                        \
             size_t r = 0;                                                                                          \
             char what_[64];                                                                                        \
             snprintf(what_, sizeof what_, "capacity=%zu of n=%zu", c, (size_t)(n));                                \
             if (!LIBCALL(api, what_, r = (DECODE_EXPR))) {                                                         \
                 continue;                                                                                          \
             }                                                                                                      \
-            size_t at_ = 0;                                                                                        \
-            if (r > c) {                                                                                           \
-                AFAIL(api, "returns_more_than_capacity", "%s: capacity=%zu returned %zu", cur_desc, c, r);         \
-            } else if (cmp_u64(out, (expect), r, &at_)) {                                                          \
-                AFAIL(api, "wrong_prefix", "%s: capacity=%zu returned %zu, element %zu = %" PRIu64 " want %" PRIu64, cur_desc, c, r, at_, out[at_], (expect)[at_]); \
-            } else if (c == (n) && r != (n)) {                                                                     \
-                AFAIL(api, "roundtrip_mismatch", "%s: capacity=n=%zu returned %zu", cur_desc, c, r);               \
-            }                                                                                                      \
-            if (!vh_gb_canary_ok(G_OUT)) {                                                                         \
-                AFAIL(api, "stray_write", "%s: capacity=%zu bytes before the output changed", cur_desc, c);        \
+            size_t allocs_ = last_vm.allocs;                                                                       \
+            for (size_t k_ = 0; k_ <= allocs_ && k_ <= 6; k_++) {                                                  \
+                if (k_) {                                                                                          \
+                    /* the same decode with its k-th allocation failing: the capacity still holds */               \
+                    out = out_buf(room_);                                                                          \
+                    r = 0;                                                                                         \
+                    snprintf(what_, sizeof what_, "capacity=%zu of n=%zu, allocation #%zu failing", c, (size_t)(n), k_); \
+                    if (!LIBCALL_FAILK(api, what_, k_, r = (DECODE_EXPR))) {                                       \
+                        continue;                                                                                  \
+                    }                                                                                              \
+                    vh_count("cap_fault_cases", 1);                                                                \
+                }                                                                                                  \
+                size_t at_ = 0;                                                                                    \
+                if (r > room_) {                                                                                   \
+                    AFAIL(api, "returns_more_than_capacity", "%s: %s returned %zu", cur_desc, what_, r);           \
+                } else if (cmp_u64(out, (expect), r, &at_)) {                                                      \
+                    AFAIL(api, "wrong_prefix", "%s: %s returned %zu, element %zu = %" PRIu64 " want %" PRIu64, cur_desc, what_, r, at_, out[at_], (expect)[at_]); \
+                } else if (!k_ && c >= (size_t)(n) && r != (size_t)(n)) {                                          \
+                    AFAIL(api, "roundtrip_mismatch", "%s: %s returned %zu", cur_desc, what_, r);                   \
+                }                                                                                                  \
+                if (!vh_gb_canary_ok(G_OUT)) {                                                                     \
+                    AFAIL(api, "stray_write", "%s: %s: bytes before the output changed", cur_desc, what_);         \
+                }                                                                                                  \
             }                                                                                                      \
             vh_count("cap_cases", 1);                                                                              \
         }                                                                                                          \
@@ -376,8 +430,12 @@ static void codec_for(const uint64_t *vals, size_t n) {
                 }
             }
             if (M13) {
+                g_caps_big = 1;
                 CAP_SWEEP("FOR.Decode", n, vals, varintFORDecode(enc, out, c));
+                g_caps_big = 0;
+                g_caps_big = 1;
                 CAP_SWEEP("FOR.BatchDecode", n, vals, varintFORBatchDecode(enc, out, c));
+                g_caps_big = 0;
             }
             char ck[80];
             snprintf(ck, sizeof ck, "FOR/%s/minlen%d/w%d/cntlen%d", batch ? "batch" : "scalar", ref_tagged(mn, (uint8_t[16]){0}), ref_bytes_of(mx - mn), ref_tagged(n, (uint8_t[16]){0}));
@@ -545,6 +603,25 @@ static void codec_group(const uint64_t *vals, size_t n) {
             }
         }
     }
+    if (M16) {
+        /* the size and field count the DECODER reports equal what the encoder wrote, whatever room the caller offers */
+        static const size_t ROOM[] = {0, 64, 100, 255, 256, 257, 300, 512, 1000, 1024, 4096, 65535, 65536, (size_t)1 << 32, ((size_t)1 << 32) + 7, SIZE_MAX};
+        for (size_t ri = 0; ri < sizeof ROOM / sizeof *ROOM; ri++) {
+            size_t room = ROOM[ri] ? ROOM[ri] : n;
+            if (room < n) {
+                continue;
+            }
+            uint64_t *out = out_buf(n);
+            uint8_t fc = 0xEE;
+            size_t r = 0;
+            if (LIBCALL("group.Decode", "decode with room for more fields", r = varintGroupDecode(enc, out, &fc, room))) {
+                if (r != wrote || fc != n) {
+                    AFAIL("group.Decode", "metadata_untrue", "%s: room for %zu fields: decoder reports %zu bytes and %u fields, the encoder wrote %zu bytes and %zu fields", cur_desc, room, r, fc, wrote, n);
+                    break;
+                }
+            }
+        }
+    }
     if (M02) {
         uint64_t *out = out_buf(n);
         uint8_t fc = 0;
@@ -579,12 +656,14 @@ static void codec_group(const uint64_t *vals, size_t n) {
     }
     if (M13) {
         /* group returns bytes consumed, not a count: adapt to the prefix oracle */
-        size_t caps[70];
+        size_t caps[120];
+        g_caps_big = 1; /* the group carries its field count */
         size_t nc = pick_caps(n, caps);
+        g_caps_big = 0;
         for (size_t ci = 0; ci < nc; ci++) {
             size_t c = caps[ci];
-            uint64_t *out = out_buf(c);
-            uint8_t fc = 0;
+            uint64_t *out = out_buf(c > n ? n : c);
+            uint8_t fc = 0xEE;
             size_t r = 0, at = 0;
             char what[48];
             snprintf(what, sizeof what, "capacity=%zu of n=%zu", c, n);
@@ -594,8 +673,8 @@ static void codec_group(const uint64_t *vals, size_t n) {
             if (c < n && r != 0) {
                 AFAIL("group.Decode", "returns_more_than_capacity", "%s: maxFields=%zu returned %zu", cur_desc, c, r);
             }
-            if (c == n && (r != wrote || cmp_u64(out, vals, n, &at))) {
-                AFAIL("group.Decode", "roundtrip_mismatch", "%s: maxFields=n", cur_desc);
+            if (c >= n && (r != wrote || fc != n || cmp_u64(out, vals, n, &at))) {
+                AFAIL("group.Decode", "roundtrip_mismatch", "%s: maxFields=%zu (>= n=%zu): returned %zu bytes (encoder wrote %zu), field count %u", cur_desc, c, n, r, wrote, fc);
             }
             vh_count("cap_cases", 1);
         }
@@ -689,7 +768,9 @@ static void codec_dict(const uint64_t *vals, size_t n) {
             vh_count("calls", 1);
         }
         if (M13) {
-            CAP_SWEEP("dict.DecodeInto", n, vals, varintDictDecodeInto(enc, wrote, out, c));
+            g_caps_big = 1;
+                CAP_SWEEP("dict.DecodeInto", n, vals, varintDictDecodeInto(enc, wrote, out, c));
+                g_caps_big = 0;
         }
         char ck[64];
         snprintf(ck, sizeof ck, "dict/%s/dictsizelen%d/cntlen%d/idxw%d", withdict ? "with" : "auto", (int)varintTaggedGetLen(enc), ref_tagged(n, (uint8_t[16]){0}), 0);
@@ -788,7 +869,9 @@ static void codec_rle(const uint64_t *vals, size_t n) {
             }
             if (M13) {
                 if (hdr) {
-                    CAP_SWEEP("RLE.DecodeWithHeader", n, vals, varintRLEDecodeWithHeader(enc, out, c));
+                    g_caps_big = 1;
+                CAP_SWEEP("RLE.DecodeWithHeader", n, vals, varintRLEDecodeWithHeader(enc, out, c));
+                g_caps_big = 0;
                 } else {
                     CAP_SWEEP("RLE.Decode", n, vals, varintRLEDecode(enc, out, c));
                 }
@@ -842,9 +925,13 @@ static void codec_elias(const uint64_t *vals, size_t n) {
         }
         if (M13) {
             if (delta) {
+                g_caps_big = 1;
                 CAP_SWEEP(dapi, n, tmp, varintEliasDeltaDecodeArray(enc, truebits, out, c));
+                g_caps_big = 0;
             } else {
+                g_caps_big = 1;
                 CAP_SWEEP(dapi, n, tmp, varintEliasGammaDecodeArray(enc, truebits, out, c));
+                g_caps_big = 0;
             }
         }
         char ck[64];
@@ -1004,14 +1091,14 @@ static void codec_bp128(const uint64_t *vals, size_t n) {
             size_t nc = pick_caps(n, caps);
             for (size_t ci = 0; ci < nc; ci++) {
                 size_t c = caps[ci];
-                uint32_t *out = (uint32_t *)vh_gb_get(G_OUT, c * 4, 0xAB);
+                uint32_t *out = (uint32_t *)vh_gb_get(G_OUT, (c > n ? n : c) * 4, 0xAB);
                 size_t r = 0;
                 char what[48];
                 snprintf(what, sizeof what, "capacity=%zu of n=%zu", c, n);
                 if (!LIBCALL(dapi, what, r = delta ? varintBP128DeltaDecode32(enc, out, c) : varintBP128Decode32(enc, out, c))) {
                     continue;
                 }
-                if (r > c || memcmp(out, src, r * 4) || (c == n && r != n)) {
+                if (r > c || r > n || memcmp(out, src, r * 4) || (c >= n && r != n)) {
                     AFAIL(dapi, r > c ? "returns_more_than_capacity" : "wrong_prefix", "%s: capacity=%zu returned %zu", cur_desc, c, r);
                 }
                 vh_count("cap_cases", 1);
